@@ -241,6 +241,16 @@ def from_ir(t):
     raise IRError(f"bad IR {t!r}")
 
 
+def norm(e):
+    """Rebuild bottom-up through SymPy's constructors (what from_ir does to a model result): removes
+    evaluate=False artefacts on the implementation side so that both sides are normalised alike."""
+    return from_ir(to_ir(e))
+
+
+def same(a, b) -> bool:
+    return canon_dummies(norm(a)) == canon_dummies(norm(b))
+
+
 def canon_dummies(e):
     """Rename Dummy symbols by order of first appearance (evaluate() creates fresh ones on every call)."""
     ds = []
